@@ -234,6 +234,9 @@ pub fn run_history(config: &Config, history: &[Call], opts: RunOpts) -> Result<R
         if let (Pred::Unspecified(_), Obs::Panic(msg)) = (&pred, &step.obs) {
             if classify(msg) != PanicClass::Other {
                 mock_panics.push(msg.clone());
+                if c.via & 0x7f == 0 {
+                    original_panicked = true;
+                }
             }
         }
         preds.push(pred);
@@ -301,19 +304,19 @@ pub fn check_verdict(out: &RunOut) -> Result<(), String> {
     let Some(verdict) = &out.verdict else {
         return Ok(());
     };
-    if out.model.unspecified {
-        return Ok(());
-    }
+    // A call beyond the end of an exactly quantified chain has an unspecified *response* (it may
+    // even be refused with a mock-induced panic), but it matched its pattern: the count is defined,
+    // and so is the verdict - the recorded errors if it was refused, the expectation lines if not.
     if !cfg!(feature = "std") && out.original_panicked {
         // no_std: a mock-induced panic on the original disables its verification (documented)
         return Ok(());
     }
-    if !out.model.errors.is_empty() {
+    if !out.model.errors.is_empty() || !out.mock_panics.is_empty() {
         // C08: verification fails and carries the text of every mock-induced panic
         let Verdict::Failed(lines) = verdict else {
             return Err(format!(
                 "{} mock-induced panic(s) happened but verification was silent",
-                out.model.errors.len()
+                out.mock_panics.len().max(out.model.errors.len())
             ));
         };
         let text = lines.join("\n");
